@@ -8,11 +8,14 @@ package server
 import (
 	"context"
 	"fmt"
+	"encoding/binary"
 	"io"
 	"log/slog"
+	"net"
 	"net/netip"
 	"sort"
 	"testing"
+	"time"
 
 	"github.com/osrg/gobgp/v4/internal/pkg/table"
 	"github.com/osrg/gobgp/v4/internal/pkg/verifkit"
@@ -54,7 +57,7 @@ func drawC16b(t *rapid.T) c16bCase {
 		op := c16Op{Cache: rapid.IntRange(0, c.NCaches-1).Draw(t, l+"cache")}
 		op.Kind = rapid.SampledFrom([]int{0, 0, 0, 0, 0, 0, 1, 2, 3, 4, 5, 6, 7, 8}).Draw(t, l+"kind")
 		op.Session = rapid.SampledFrom([]uint16{1, 1, 1, 2}).Draw(t, l+"session")
-		op.Serial = uint32(rapid.IntRange(1, 5).Draw(t, l+"serial"))
+		op.Serial = rapid.SampledFrom([]uint32{1, 2, 3, 4, 5, 1, 2, 3, 0xfffffffe, 0xffffffff, 0, 0x80000001}).Draw(t, l+"serial")
 		if op.Kind == 0 {
 			nr := rapid.IntRange(0, 6).Draw(t, l+"nrecs")
 			for j := 0; j < nr; j++ {
@@ -87,6 +90,8 @@ func c16RecKey(host string, r c16Rec) string {
 }
 
 type c16Model struct {
+	serial    uint32 // serial of the last completed response
+	connGone  bool   // the transport connection was (or may have been) dropped: in the harness nothing reconnects
 	present   bool
 	committed map[string]bool
 	session   uint16
@@ -101,11 +106,61 @@ func runC16b(c c16bCase, st *verifkit.Stats) *verifkit.Failure {
 	models := make([]*c16Model, c.NCaches)
 	dead, cancel := context.WithCancel(context.Background())
 	cancel() // a cancelled context makes the client's reconnect goroutine return immediately
+	// every client gets a real TCP connection (roaClient.conn is a *net.TCPConn); the harness reads the
+	// cache's end to see which queries the client sends
+	ln, err := net.Listen("tcp", "127.0.0.1:0")
+	if err != nil {
+		return verifkit.Failf("harness", "listen: %v", err)
+	}
+	defer ln.Close()
+	cacheEnd := map[string]net.Conn{}
+	defer func() {
+		for _, cn := range cacheEnd {
+			cn.Close()
+		}
+	}()
 	for i := 0; i < c.NCaches; i++ {
 		host := c16Hosts[i]
 		_, cf := context.WithCancel(context.Background())
-		m.clientMap[host] = &roaClient{host: host, eventCh: m.eventCh, lifetime: 1 << 30, pendingROAs: make([]*table.ROA, 0), ctx: dead, cancelfnc: cf}
+		cl := &roaClient{host: host, eventCh: m.eventCh, lifetime: 1 << 30, pendingROAs: make([]*table.ROA, 0), ctx: dead, cancelfnc: cf}
+		if cc, err := net.Dial("tcp", ln.Addr().String()); err == nil {
+			if sc, err := ln.Accept(); err == nil {
+				cl.conn = cc.(*net.TCPConn)
+				cacheEnd[host] = sc
+				defer cc.Close()
+			}
+		}
+		m.clientMap[host] = cl
 		models[i] = &c16Model{present: true, committed: map[string]bool{}}
+	}
+	// sent returns the PDUs the client has written to its cache since the last call
+	sent := func(host string) []rtr.RTRMessage {
+		cn := cacheEnd[host]
+		if cn == nil {
+			return nil
+		}
+		var buf []byte
+		tmp := make([]byte, 4096)
+		for {
+			_ = cn.SetReadDeadline(time.Now().Add(2 * time.Millisecond))
+			n, err := cn.Read(tmp)
+			buf = append(buf, tmp[:n]...)
+			if err != nil || n == 0 {
+				break
+			}
+		}
+		var out []rtr.RTRMessage
+		for len(buf) >= 8 {
+			l := int(binary.BigEndian.Uint32(buf[4:8]))
+			if l < 8 || l > len(buf) {
+				break
+			}
+			if msg, err := rtr.ParseRTR(buf[:l]); err == nil {
+				out = append(out, msg)
+			}
+			buf = buf[l:]
+		}
+		return out
 	}
 	defer func() {
 		for _, cl := range m.clientMap {
@@ -203,7 +258,7 @@ func runC16b(c c16bCase, st *verifkit.Stats) *verifkit.Failure {
 			if op.NoEOD {
 				// the connection breaks before End of Data: nothing of this response counts
 				m.HandleROAEvent(&roaEvent{EventType: roaDisconnected, Src: host})
-				mo.stale = true
+				mo.stale, mo.connGone = true, true
 				st.Label("interrupted-response")
 				// withdrawals of an interrupted response: the RFC lets a router apply PDUs as they come or at
 				// End of Data; what was withdrawn may or may not be gone: resynchronise the model on the table
@@ -225,7 +280,7 @@ func runC16b(c c16bCase, st *verifkit.Stats) *verifkit.Failure {
 			if len(mo.committed) > 0 {
 				incremental = true
 			}
-			mo.session, mo.haveSess, mo.stale = op.Session, true, false
+			mo.session, mo.haveSess, mo.stale, mo.serial = op.Session, true, false, op.Serial
 			for _, p := range ops {
 				if p.w {
 					delete(mo.committed, p.key)
@@ -235,7 +290,32 @@ func runC16b(c c16bCase, st *verifkit.Stats) *verifkit.Failure {
 			}
 			st.Label("completed-response")
 		case 1:
+			_ = sent(host)
 			feed(host, rtr.NewRTRSerialNotify(op.Session, op.Serial))
+			// RFC 8210 5.2 / 8.1.3, serial numbers compared as RFC 1982 prescribes: a newer serial is answered with a
+			// Serial Query for the router's own serial, an equal one with nothing
+			if mo.haveSess && !mo.stale && !mo.connGone && op.Session == mo.session && cacheEnd[host] != nil {
+				q := sent(host)
+				newer := int32(op.Serial-mo.serial) > 0
+				switch {
+				case op.Serial == mo.serial:
+					if len(q) != 0 {
+						return verifkit.Failf("notify-query", "%s: Serial Notify with the router's own serial %d was answered with %d PDU(s)", when, mo.serial, len(q))
+					}
+				case newer:
+					sq, ok := (rtr.RTRMessage)(nil), false
+					if len(q) == 1 {
+						sq, ok = q[0], true
+					}
+					if x, isSQ := sq.(*rtr.RTRSerialQuery); !ok || !isSQ || x.SerialNumber != mo.serial {
+						return verifkit.Failf("notify-query", "%s: Serial Notify %d is newer than the router's serial %d (RFC 1982 arithmetic): expected one Serial Query for %d, the client sent %v", when, op.Serial, mo.serial, mo.serial, q)
+					}
+					st.Label("serial-notify-newer")
+					if op.Serial < mo.serial {
+						st.Label("serial-notify-newer-across-wrap")
+					}
+				}
+			}
 		case 2:
 			feed(host, rtr.NewRTRCacheReset())
 		case 3:
@@ -275,6 +355,17 @@ func runC16b(c c16bCase, st *verifkit.Stats) *verifkit.Failure {
 				mo.committed = map[string]bool{}
 			} else if n != before {
 				return verifkit.Failf("reset-partial", "%s: reset left %d of %d records of %s", when, n, before, host)
+			}
+		}
+		if op.Kind >= 3 || (op.Kind == 0 && op.NoEOD) {
+			mo.connGone = true
+		}
+		if op.Kind == 8 { // Reset goes by address: every cache on that address
+			a, _, _ := splitHostPort(host)
+			for j := range models {
+				if b, _, _ := splitHostPort(c16Hosts[j]); b == a {
+					models[j].connGone = true
+				}
 			}
 		}
 		if f := compare(when); f != nil {
